@@ -112,8 +112,13 @@ def apply_contract(interp, c, func, args, kwargs):
     result = c.returns.make(interp, 'ret.%s' % c.qname.rpartition(':')[2]) if isinstance(c.returns, Ty) else None
     env2 = _clause_env(bound, ghosts, {'result': result, 'old': old, 'trace': st.trace, 'ghost': st.ghost})
     for name, clause in c.ensures.items():
-        if isinstance(clause, tuple):       # (clause, 'effect') : executed for its effect on ghost state
-            _call_pred(interp, clause[0], env2)
+        if isinstance(clause, tuple):
+            # (clause, 'effect'): executed at call sites for its effect on ghost state / ghost trace
+            # (clause, 'check') : about the callee's OWN events and ghost state -- an obligation where the
+            #                     function is verified, not assumed at call sites (the caller's trace is another
+            #                     trace); its call-site counterpart is an 'effect' clause
+            if clause[1] != 'check':
+                _call_pred(interp, clause[0], env2)
             continue
         st.assume(interp.truth(_call_pred(interp, clause, env2)))
     return result
@@ -279,7 +284,9 @@ def _run_path(interp, reg, c, func, rep):
                           interp.not_(w), {'kind': 'exc-post'})
         for name, clause in c.ensures.items():
             if isinstance(clause, tuple):
-                continue
+                if clause[1] != 'check':
+                    continue
+                clause = clause[0]
             _oblige_clause(interp, '%s : ensures[%s]' % (fname, name), clause, env2, {'kind': 'post'})
     else:
         exc = outcome[1]
